@@ -15,7 +15,7 @@ EXPLANATION = (
     'EffectId overflow, the unreachable after the discriminant test, and the documented panic on an id that names no outstanding request '
     '(outside the property\'s input domain); R12.e both bincode deserialisers are built with from_slice, whose length prefixes are '
     'checked against the remaining input; R12.f errors that blame the input (DeserializeEvent, DeserializeOutput, ProcessResponse) are produced only '
-    'before any call that can enter the core, so a rejected input has not been applied. Panics, hangs or allocation inside user Deserialize impls and serde_json are not decided.')
+    'before any call that can enter the core, so a rejected input has not been applied. Panics, hangs or allocation inside user Deserialize impls and serde_json are not decided. R12.c resume() touches only the addressed entry and frees it only when it can no longer be resolved (shared with C09 R09.a/b).')
 
 BOUNDARY_ERRORS = ('crux_core::bridge::BridgeError', 'erased_serde::error::Error', 'crux_core::core::resolve::ResolveError',
                    'bincode::error::ErrorKind', 'alloc::boxed::Box<bincode::error::ErrorKind>')
